@@ -210,7 +210,7 @@ func c01Exec(ops []string) []string {
 				ip, ret := testutil.TakeIP()
 				cl.nodes = append(cl.nodes, &c01Node{name: fmt.Sprintf("n%d", i), ip: ip, ret: ret})
 				if err := cl.start(i); err != nil {
-					res = "node-error"
+					res = nodeErr(err)
 				}
 			}
 		case len(f) == 3 && f[0] == "join":
@@ -247,7 +247,7 @@ func c01Exec(ops []string) []string {
 			}
 			time.Sleep(100 * time.Millisecond) // let the kernel release the sockets
 			if err := cl.start(a); err != nil {
-				res = "node-error"
+				res = nodeErr(err)
 				break
 			}
 			if _, err := cl.nodes[a].s.Join([]string{cl.addr(b)}, false); err != nil {
